@@ -45,6 +45,13 @@ type vredis struct {
 	kv   map[string]vredisEntry
 	sets []vredisSet
 	gets int
+	// getDelay: every GET is answered this much later (the connection's later commands queue behind it, as with a slow server)
+	getDelay time.Duration
+	getLog   []vredisGet
+}
+
+type vredisGet struct {
+	recv, replied time.Time
 }
 
 func newVRedis() (*vredis, error) {
@@ -121,7 +128,15 @@ func (s *vredis) serve(c net.Conn) {
 			out = "-ERR This instance has cluster support disabled\r\n"
 		case "GET":
 			s.mu.Lock()
+			d := s.getDelay
+			s.mu.Unlock()
+			recv := time.Now()
+			if d > 0 {
+				time.Sleep(d)
+			}
+			s.mu.Lock()
 			s.gets++
+			s.getLog = append(s.getLog, vredisGet{recv, time.Now()})
 			e, ok := s.kv[a[1]]
 			if ok && !time.Now().Before(e.expire) {
 				delete(s.kv, a[1])
@@ -192,6 +207,7 @@ type vupstream struct {
 	queries []string // "name/type" in arrival order
 	serial  byte
 	failing map[string]bool
+	ttl     uint32 // of positive answers; 0 = 6
 }
 
 func newVUpstream() (*vupstream, error) {
@@ -237,6 +253,9 @@ func newVUpstream() (*vupstream, error) {
 						r.Ns = []refdns.RR{refdns.SOA(refdns.N("test"), 100, refdns.N("ns", "test"), refdns.N("root", "test"), 100)}
 					default:
 						r = env.Answer(q, ser, 6)
+						if u.ttl > 0 {
+							r = env.Answer(q, ser, u.ttl)
+						}
 					}
 					c.Write(refdns.Frame(r.Encode(false)))
 				}
